@@ -258,6 +258,7 @@ type ErrorCode string
 const (
 	UnlowercasedHeaderName     ErrorCode = "header was not lowercased"
 	DuplicateHeaders                     = "multiple headers with same name"
+	EmptyHeaderName                      = "header name was empty"
 	WrongCompressedPayloadSize           = "compressed payload size was incorrect"
 	UnknownFrameType                     = "unknown frame type"
 	InvalidControlFrame                  = "invalid control frame"
